@@ -40,7 +40,11 @@ LEVEL = "exploration"
 RULE  = ("seeded histories (length 0-400) of (context, offered action set, reward table in [0,1], on-policy or "
          "logged learn) against one learner tree: Random/Fixed/BanditEpsilon/BanditUCB, Corral over every non-empty "
          "subset of them (eta x T x mode grids), Misguided wrappers; action kinds int(0/1 incl.)/float/str/dense "
-         "list/dense tuple/sparse dict/mixed, sets of size 1-6 that stay, permute, grow, shrink, swap or churn; a "
+         "list/dense tuple/sparse dict/mixed/non-dict Mappings (MappingProxyType, UserDict, ChainMap, OrderedDict, a user "
+         "Mapping)/user subclasses of the public Dense and Sparse ABCs/coba's own row objects (LazyDense, LazySparse, HeadDense, "
+         "EncodeDense, DropOne, SparseDense, HashableDense, HashableSparse)/sparse and hashable-or-dense actions that differ but "
+         "whose hashable versions have EQUAL HASHES (ints congruent mod 2^61-1, -1 vs -2, 0.5 vs 2^60); score is asked with the "
+         "offered object or (30% of the histories) with an equal fresh copy, which is then also what a logged learn hands over; sets of size 1-6 that stay, permute, grow, shrink, swap or churn; a "
          "case is one history; distinct & non-trivial = distinct (learner configuration, action kind, action "
          "dynamics, reward pattern, logging mode) with history length >= 3; plus adversarial-seed histories: the seed "
          "of one learner (top learner or a base learner of a Corral) is computed by LCG inversion so that the k-th "
@@ -55,7 +59,7 @@ RULE  = ("seeded histories (length 0-400) of (context, offered action set, rewar
 ADV_CASES = {"quick": 1600, "thorough": 16000}          # adversarial-seed histories (part of PLAN[...]["cases"])
 ADV_DRAWS = 40
 SHARE_CASES = {"quick": 640, "thorough": 8000}          # shared-object histories (part of PLAN[...]["cases"])
-PLAN  = {"quick":    {"shards": 16, "cases": 2400 + ADV_CASES["quick"] + SHARE_CASES["quick"],        "timeout": 600,  "budget_s": 80},
+PLAN  = {"quick":    {"shards": 16, "cases": 2080 + ADV_CASES["quick"] + SHARE_CASES["quick"],        "timeout": 600,  "budget_s": 80},
          "thorough": {"shards": 16, "cases": 60000 + ADV_CASES["thorough"] + SHARE_CASES["thorough"], "timeout": 3000, "budget_s": 840}}
 REQUIRED = ["contract.predict.action_offered", "contract.predict.prob_in_range", "contract.predict.prob_is_policy",
             "contract.score.in_range", "contract.corral.weights", "oracle.scores.sum_to_one", "oracle.learn.corral",
@@ -69,7 +73,10 @@ REQUIRED = ["contract.predict.action_offered", "contract.predict.prob_in_range",
             "share.same-list-new-content.length-changed", "share.same-list-new-content.same-length",
             "share.same-list-new-content.first-seen-by=predict", "share.same-list-new-content.first-seen-by=score",
             "share.twin.score==fresh-copies", "share.twin.predict-prob==fresh-copies", "share.histories.corral",
-            "share.histories.eps", "share.histories.ucb", "share.histories.misguided"]
+            "share.histories.eps", "share.histories.ucb", "share.histories.misguided",
+            "oracle.histories.actions=mapping", "oracle.histories.actions=abc", "oracle.histories.actions=rows",
+            "oracle.histories.actions=dictc", "oracle.histories.actions=collide", "oracle.actions.equal-hash-pair-offered",
+            "oracle.score.asked-with-equal-copy", "oracle.learn.logged-action-is-equal-copy"]
 ASSUMPTIONS = [
     "score == predict's probability and sum(score)==1 are asserted only for Random/Fixed/BanditEpsilon/BanditUCB "
     "(and Misguided over them); Corral's policy is random given the history (it samples its base learners), so for "
@@ -80,7 +87,8 @@ ASSUMPTIONS = [
     "histories also use pmfs that FixedLearner's own precondition accepts (entries in [0,1], |sum-1| <= 4e-4): there the scores "
     "must sum to 1 within 1e-3 only, everything else (action offered, probability > 0, probability == score) is asserted as usual",
     "action sets hold no duplicates (incl. 1 vs 1.0 and list [1,0] vs tuple (1,0)); logged actions are members of the offered set; "
-    "logged probabilities lie in [1e-6, 1]",
+    "logged probabilities lie in [1e-6, 1]; the action handed to score / a logged learn is an offered object or == to one (an equal object of the "
+    "same type); dense / sparse actions hold hashable values (numbers, strings)",
     "adversarial seeds: the generator state is read from the frame of the real generator (reach accounting and the /uniform= "
     "suffix of a signature only; no verdict depends on it); Corral seeds are 52-bit integers (any int is a legal seed)",
     "shared-object histories: only the CONTAINERS the caller owns are edited in place (the actions list, a list/dict context); "
@@ -225,7 +233,12 @@ TS    = [2, 10, 1000, "inf"]
 EPSS  = [0, .05, .5, 1]
 MODES = ["importance", "off-policy"]
 BASES = ["random", "fixed", "eps", "ucb"]
-AKINDS = ["int", "int01", "float", "str", "list", "tuple", "dict", "mixed"]
+AKINDS = ["int", "int01", "float", "str", "list", "tuple", "dict", "mixed",
+          "mapping", "abc", "rows", "dictc", "collide"]            # see gen_universe
+NEW_AKINDS = {"mapping": "non-dict-Mapping", "abc": "user-subclass-of-Dense/Sparse-ABC", "rows": "coba-row-object"}
+SPARSE_TAGS = ("d", "mp", "ud", "cm", "od", "um", "US", "LS", "LSc", "hs")
+DENSE_TAGS  = ("l", "t", "UD", "LD", "LDc", "HD", "ED", "DO", "SD", "hd")
+P61 = 2**61 - 1                                                     # CPython: hash(n) == n mod P61 (sign kept), hash(-1) == -2
 DYNAMICS = ["fixed", "permute", "grow", "shrink", "swap", "churn", "single"]
 REWARDS  = ["zeros", "ones", "half", "boundary", "ties3", "uniform", "best-arm", "near-boundary", "worst-arm"]
 LOGGING  = ["on-policy", "on-policy", "mixed", "all-logged"]
@@ -249,14 +262,101 @@ def gen_universe(rng, kind):
     if kind == "tuple": return [["t", [i, i % 3]] for i in range(n)]                  # 2-tuples: same shape as (action, prob)
     if kind == "dict":  return [["d", {"abcdefghij"[i]: 1}] for i in range(n-3)] + [["d", {"a": 1, "b": 1}], ["d", {"a": 2}], ["d", {}]]
     if kind == "mixed": return [["i", 2], ["s", "a"], ["t", [1, 0]], ["d", {"a": 1}], ["l", [0, 1, 0]], ["f", 2.5], ["i", 7], ["s", "7"], ["d", {"b": 1}], ["t", [3]]]
+    onehot = lambda i: [int(j == i) for j in range(n)]
+    sparse = lambda i: {"abcdefghij"[i]: 1} if i < n - 3 else [{"a": 1, "b": 1}, {"a": 2}, {}][i - (n - 3)]
+    if kind == "mapping":
+        # sparse actions that are Mappings but not dicts (every collections.abc.Mapping is registered as coba.primitives.Sparse)
+        tags = ["mp", "ud", "cm", "um", "od"]
+        off = rng.randrange(len(tags))
+        return [[tags[(i + off) % len(tags)], sparse(i)] for i in range(n)]
+    if kind == "abc":
+        # rows of a user who implements the public interfaces coba.primitives.Dense / Sparse (plain subclasses of the ABCs)
+        flip = rng.randrange(2)
+        return [["UD", onehot(i)] if (i + flip) % 2 else ["US", sparse(i)] for i in range(n)]
+    if kind == "rows":
+        # the row objects coba's own readers / filters produce, and the hashable wrappers themselves
+        tags = ["LD", "LS", "LDc", "LSc", "HD", "ED", "DO", "SD", "hd", "hs"]
+        off = rng.randrange(len(tags))
+        out = []
+        for i in range(n):
+            tg = tags[(i + off) % len(tags)]
+            out.append([tg, sparse(i) if tg in SPARSE_TAGS else onehot(i)])
+        return out
+    if kind == "dictc":
+        # sparse actions in groups whose item sets have EQUAL HASHES although they differ (ints congruent mod 2^61-1, -1 vs -2)
+        return [["d", {"x": -1}], ["d", {"x": -2}], ["d", {"x": -2 - P61}], ["d", {"x": -2**62}],
+                ["d", {"id": 0, "w": .5}], ["d", {"id": P61, "w": .5}], ["d", {"id": 2*P61, "w": .5}],
+                ["d", {"y": 1}], ["d", {"y": 2**61}], ["d", {"z": 3}]]
+    if kind == "collide":
+        # the same for hashable / dense actions (equal hashes, different values; 0.5 and 2^60 hash alike as well)
+        return [["i", -1], ["i", -2], ["i", -2 - P61], ["l", [-1, 0]], ["l", [-2, 0]], ["t", [0, 1]], ["t", [P61, 1]],
+                ["f", .5], ["i", 2**60], ["s", "a"]]
     raise ValueError(kind)
 
+_TYPES = {}
+def _action_types():
+    """action classes that need coba (imported lazily: the tree under test is chosen at run time)"""
+    if _TYPES: return _TYPES
+    from collections import abc as cabc
+    from coba.primitives import Dense, Sparse
+    class UserDense(Dense):
+        def __init__(self, vals): self._vals = list(vals)
+        def __getitem__(self, i): return self._vals[i]
+        def __len__(self):        return len(self._vals)
+        def __iter__(self):       return iter(self._vals)
+        def __repr__(self):       return f"UserDense({self._vals})"
+    class UserSparse(Sparse):
+        def __init__(self, kv):   self._kv = dict(kv)
+        def __getitem__(self, k): return self._kv[k]
+        def __len__(self):        return len(self._kv)
+        def __iter__(self):       return iter(self._kv)
+        def keys(self):           return self._kv.keys()
+        def items(self):          return self._kv.items()
+        def __repr__(self):       return f"UserSparse({self._kv})"
+    class UserMapping(cabc.Mapping):
+        def __init__(self, kv):   self._kv = dict(kv)
+        def __getitem__(self, k): return self._kv[k]
+        def __len__(self):        return len(self._kv)
+        def __iter__(self):       return iter(self._kv)
+        def __repr__(self):       return f"UserMapping({self._kv})"
+    _TYPES.update(UD=UserDense, US=UserSparse, um=UserMapping)
+    return _TYPES
+
 def decode_action(enc):
+    """a NEW object for the encoded action (every call)"""
     k, v = enc
     if k == "l": return list(v)
     if k == "t": return tuple(v)
     if k == "d": return dict(v)
-    return v
+    if k in ("i", "f", "s"): return v
+    if k == "mp":
+        from types import MappingProxyType
+        return MappingProxyType(dict(v))
+    if k in ("ud", "cm", "od"):
+        import collections
+        return {"ud": collections.UserDict, "cm": collections.ChainMap, "od": collections.OrderedDict}[k](dict(v))
+    if k in ("um", "UD", "US"): return _action_types()[k](v)
+    from coba.primitives import HashableDense, HashableSparse
+    if k == "hd": return HashableDense(list(v))
+    if k == "hs": return HashableSparse(dict(v))
+    from coba.pipes.rows import LazyDense, LazySparse, HeadDense, EncodeDense, DropOne, SparseDense
+    if k == "LD":  return LazyDense(list(v))
+    if k == "LDc": return LazyDense(lambda v=list(v): list(v))                        # loaded on first use
+    if k == "HD":  return HeadDense(list(v), {"c%d" % i: i for i in range(len(v))})
+    if k == "ED":  return EncodeDense([str(e) for e in v], [float]*len(v))
+    if k == "DO":  return DropOne([9] + list(v), 0)
+    if k == "SD":  return SparseDense({i: e for i, e in enumerate(v) if e != 0}, len(v))
+    if k == "LS":  return LazySparse(dict(v))
+    if k == "LSc": return LazySparse(lambda v=dict(v): dict(v))
+    raise ValueError(k)
+
+def action_hash(enc):
+    """the hash the learners' hashable version of this action has (dense: tuple of the values, sparse: frozenset of the items)"""
+    k, v = enc
+    if k in SPARSE_TAGS: return hash(frozenset(v.items()))
+    if k == "ED": return hash(tuple(float(e) for e in v))
+    if k in DENSE_TAGS: return hash(tuple(v))
+    return hash(v)
 
 def gen_base(rng, kind, n_fixed):
     seed = rng.randint(1, 1000)
@@ -317,7 +417,9 @@ def gen_case(rng):
     else:
         if top == "fixed" and dyn in ("grow", "shrink"): dyn = "swap"
         learner = gen_base(rng, top, n0 if dyn != "single" else 1)
-    return _gen_history(rng, learner, akind, dyn, n0)
+    spec = _gen_history(rng, learner, akind, dyn, n0)
+    if rng.random() < .3: spec["scorearg"] = "equal-copy"       # score is asked about an equal, but not identical, action object
+    return spec
 
 def _gen_history(rng, learner, akind, dyn, n0, length=None):
     const_size = has_kind(learner, "fixed")
@@ -471,6 +573,7 @@ def gen_share_case(rng, j):
     spec = _gen_history(rng, learner, akind, dyn, n0, length=rng.choice(SHARE_LENGTHS))
     spec["share"] = {"edit": rng.choice(SHARE_EDITS), "point": point, "context": rng.choice(["list", "dict", None])}
     spec["meta"]["share"] = [spec["share"]["edit"], point, spec["share"]["context"]]
+    if rng.random() < .3: spec["scorearg"] = "equal-copy"
     return spec
 
 def _edit_in_place(L, new, style):
@@ -582,7 +685,22 @@ def check_case(spec, ctx=None, upto=None):
     if core["k"] == "corral":
         flags = "/eta>=10" if core["eta"] >= 10 else "/eta<=1"
     universe = [decode_action(e) for e in spec["universe"]]
+    uindex   = {id(o): i for i, o in enumerate(universe)}                        # (the universe keeps every object alive)
+    uhash    = [action_hash(e) for e in spec["universe"]]
+    akind    = spec.get("meta", {}).get("akind")
+    score_copy = spec.get("scorearg") == "equal-copy"
     rounds   = spec["rounds"]
+    if akind: note(f"oracle.histories.actions={akind}")
+
+    def equal_hashes(A):
+        """does the offered set hold two (different) actions whose hashable versions hash alike?"""
+        hs = [uhash[uindex[id(b)]] for b in A if id(b) in uindex]
+        return len(set(hs)) < len(hs)
+
+    def fresh_action(b):
+        """a fresh, equal object for an offered action (re-built from its encoding: some action types cannot be copied)"""
+        i = uindex.get(id(b))
+        return decode_action(spec["universe"][i]) if i is not None else _fresh(b)
     viol = []
     step = {"t": -1, "op": "init"}
 
@@ -606,6 +724,8 @@ def check_case(spec, ctx=None, upto=None):
     shst   = {"edited": False, "unseen": None}       # unseen: the list holds new content that no call has seen yet
 
     def fail(sig, what):
+        if akind in NEW_AKINDS: sig += "/actions:" + NEW_AKINDS[akind]
+        elif equal_hashes(step.get("A") or ()): sig += "/actions:offered-set-holds-different-actions-with-equal-hashes"
         if share and shst["edited"]:
             sig += "/actions-list-edited-in-place"
             # Corral hands the list to its base learners through SafeLearner, which keeps a converted COPY of the first
@@ -657,7 +777,7 @@ def check_case(spec, ctx=None, upto=None):
 
     def twin_scores(x, A):
         """the policy of the twin (same history, fresh equal copies of everything it is handed)"""
-        x2, A2 = _fresh(x), _fresh(list(A))
+        x2, A2 = _fresh(x), [fresh_action(b) for b in A]
         return [twin.score(x2, A2, b2) for b2 in A2]
 
     prevA = None
@@ -677,6 +797,8 @@ def check_case(spec, ctx=None, upto=None):
                 x = XC
         if prevA is not None and prevA != rd["A"]: note("oracle.actions.changed_between_rounds")
         prevA = rd["A"]
+        step["A"] = A                                                         # (shared histories: THE list, always current)
+        if equal_hashes(A): note("oracle.actions.equal-hash-pair-offered")
         try:
             # -------- predict
             step["op"] = "predict"
@@ -723,6 +845,7 @@ def check_case(spec, ctx=None, upto=None):
                 else:
                     pos, lp = rd["log"]; la = A[pos]
                     note("oracle.learn.logged")
+                    if score_copy: la = fresh_action(la); note("oracle.learn.logged-action-is-equal-copy")   # (as read from a log)
                     if lp <= 1e-3: tiny_iw = True
                 r = rd["r"][pos]
                 if r in (0, 1): note("oracle.reward.boundary")
@@ -731,7 +854,7 @@ def check_case(spec, ctx=None, upto=None):
                 if _STEPS[0] > _STEPS[1]: _STEPS[1] = _STEPS[0]
                 if twin is not None:
                     step["op"] = "learn(twin)"
-                    twin.learn(_fresh(x), _fresh(la), r, lp)
+                    twin.learn(_fresh(x), fresh_action(A[pos]), r, lp)
                 if share and share["point"] == "before-score":
                     offer([universe[i] for i in rounds[t+1]["A"]], "score")    # the next set arrives before the score calls
                 note("oracle.learn")
@@ -748,6 +871,7 @@ def check_case(spec, ctx=None, upto=None):
             else:
                 scores = []
                 for b in list(A):
+                    if score_copy: b = fresh_action(b); note("oracle.score.asked-with-equal-copy")
                     scores.append(learner.score(x, A, b)); seen("score")
             note("oracle.scores")
             if twin is not None:
